@@ -46,7 +46,8 @@ def sig_of_diff(d):
     return f"C03:roundtrip:{tail}:{kind}"
 
 
-STREAM_KINDS = ("text", "binary", "path", "pathlib", "tmp-binary", "tmp-text", "spooled", "file-binary", "file-text")
+STREAM_KINDS = ("text", "binary", "path", "pathlib", "tmp-binary", "tmp-text", "spooled", "file-binary", "file-text",
+                "file-text:ascii", "file-text:cp1252", "file-text:utf-16", "file-text:latin-1")
 
 
 def oracle_store(store, how):
@@ -93,9 +94,11 @@ def oracle_store(store, how):
                     with open(path, "rb") as f:
                         st2 = read_aas_json_file(f, failsafe=False)
                 else:
-                    with open(path, "w", encoding="utf-8") as f:
+                    # a text file in the encoding its owner chose (the writer cannot know it: the document must survive any)
+                    enc = how.partition(":")[2] or "utf-8"
+                    with open(path, "w", encoding=enc) as f:
                         write_aas_json_file(f, store)
-                    with open(path, "r", encoding="utf-8") as f:
+                    with open(path, "r", encoding=enc) as f:
                         st2 = read_aas_json_file(f, failsafe=False)
             finally:
                 os.remove(path)
@@ -143,9 +146,9 @@ def write_json(store, how, **kw):
             with open(path, "wb") as f:
                 write_aas_json_file(f, store, **kw)
         else:
-            with open(path, "w", encoding="utf-8") as f:
+            with open(path, "w", encoding=how.partition(":")[2] or "utf-8") as f:
                 write_aas_json_file(f, store, **kw)
-        with open(path, "r", encoding="utf-8") as f:
+        with open(path, "r", encoding=(how.partition(":")[2] or "utf-8") if how.startswith("file-text") else "utf-8") as f:
             return f.read()
     finally:
         os.remove(path)
